@@ -4,6 +4,6 @@ W="$1"; C="$2"; F="$3"; n=$(basename "$F" .rs)
 cd "$W" || exit 2
 d="crates/$C/tests"; made=0; [ -d "$d" ] || { mkdir -p "$d"; made=1; }
 cp "$F" "$d/$n.rs"
-CARGO_TARGET_DIR="$W/target" timeout 2400 cargo test --offline -p "$C" --test "$n" -- --test-threads=1; rc=$?
+CARGO_TARGET_DIR="${ITEST_TARGET:-$W/target}" timeout 2400 cargo test --offline -p "$C" --test "$n" -- --test-threads=1; rc=$?
 rm -f "$d/$n.rs"; [ $made = 1 ] && rmdir "$d" 2>/dev/null
 exit $rc
